@@ -24,12 +24,7 @@ OrdCatalog == <<
   << << O(<<T("blk"), ST>>, <<>>), O(<<T("a"), ST>>, <<>>) >>,
      \* catch-all: the configuration line `<Prefix> n 1` is itself a negated statement, so its removal command is the positive text `n 1`:
      \* an %order_reverse rule need not begin with the negation word to pin a removal (`portswitch %order_reverse` in huawei.order)
-     << O(<<T("blk"), ST>>, <<>>), OR(<<T("n"), TT>>), O(<<T("a"), ST>>, <<>>) >>,
-     \* an ordinary ordering rule written in the negated form (`<Prefix> nx ~`, no %order_reverse): the line `<Prefix> nx 1` ranks there
-     \* directly, and its removal `nx 1` (the negation of a negated rule is the plain rule) through the reverse form
-     \* (limited to patches: order_config reads the polarity of a row off its text, so a line that begins with the negation word is a
-     \* "removal" there whatever rule matches it -- that reading is covered by the unmentioned-rows clause, not by a rank)
-     << O(<<T("blk"), ST>>, <<>>), OS(<<T(Prefix), T("nx"), TT>>), O(<<T("a"), ST>>, <<>>) >> >>,
+     << O(<<T("blk"), ST>>, <<>>), OR(<<T("n"), TT>>), O(<<T("a"), ST>>, <<>>) >> >>,
   \* shared-prefix: ONE ordering rule (the first one) covers three patching rules
   << << O(<<T("ip"), TT>>, <<>>) >> >>,
   \* global-desc: the %global entry declared BEFORE the block rule ranks before the block's child rules at every depth; declared AFTER it, after them
@@ -47,7 +42,11 @@ OrdCatalog == <<
   \* slash-key
   << << O(<<T("a"), ST>>, <<>>), O(<<T("port"), ST>>, <<>>) >> >>,
   \* negated-form
-  << << O(<<T("blk"), ST>>, <<>>), O(<<T("a"), ST>>, <<>>) >> >>
+  << << O(<<T("blk"), ST>>, <<>>), O(<<T("a"), ST>>, <<>>) >>,
+     \* an ordinary ordering rule written in the negated form (`<Prefix> nx *`, no %order_reverse): the line `<Prefix> nx 1` ranks there
+     \* directly, and its removal `nx 1` (the negation of a negated rule is the plain rule) through the reverse form.  Limited to patches:
+     \* order_config reads the polarity of a row off its text, so a line that begins with the negation word is a "removal" there
+     << O(<<T("blk"), ST>>, <<>>), OS(<<T(Prefix), T("nx"), ST>>), O(<<T("a"), ST>>, <<>>) >> >>
 >>
 \* disjointness of sibling languages over the instance universe of the patching catalogue (domain assumption of C08)
 RECURSIVE AllInst(_)
